@@ -241,6 +241,21 @@ Qed.
 Lemma prompt_refuted evs : no_send evs = true -> pexit (prun false pblocked0 evs) = false.
 Proof. intros H. rewrite prompt_blocked_stays; auto. Qed.
 
+(* ... and even while workers keep sending, the schedule in which main re-enters select before the
+   handler is scheduled (the handler must win the lock in the short gap between two selects) starves
+   the handler for any number of rounds: no bound on the steps to exit. *)
+Lemma prompt_starvation_refuted k :
+  pexit (prun false pblocked0 (concat (repeat [PWorkerSend; PMain; PHandler] k))) = false.
+Proof.
+  assert (forall k, prun false pblocked0 (concat (repeat [PWorkerSend; PMain; PHandler] k)) = pblocked0) as H.
+  { intro n. induction n as [|n IH]; [reflexivity|].
+    cbn [repeat concat]. unfold prun in *. rewrite fold_left_app. cbn [fold_left app].
+    replace (pstep false (pstep false (pstep false pblocked0 PWorkerSend) PMain) PHandler) with pblocked0
+      by (vm_compute; reflexivity).
+    exact IH. }
+  rewrite H. reflexivity.
+Qed.
+
 (* with a select that times out, main + handler + main reach the exit from every state *)
 Lemma prompt_with_timeout s : pexit (prun true s [PMain; PHandler; PMain; PHandler; PMain]) = true.
 Proof. destruct s as [[|] [|] [|]]; vm_compute; reflexivity. Qed.
